@@ -245,6 +245,9 @@ pub enum Op {
     /// Jacobian) at the same time; in overlap mode they are shuttle threads interleaved at the
     /// model seam by the seeded scheduler, otherwise the queries run one after the other
     ConcurrentQueries(u8),
+    /// query the accessors of the `FitResult` returned by the last fit again (the problem
+    /// inside it may have been updated since through the public `problem` field)
+    ResultView,
 }
 
 /// one decision of the simulated work-stealing pool per `join`
